@@ -16,11 +16,23 @@ def run(tier, seed):
         if viol['sig'].get('property') == 'C03':
             v.violation(viol['sig'], viol.get('replay'))
     e2e_common.report_rules(v, PROP, res['trace_rules'])
+    # outside the grid: one connection with one stream and files above the scheduler's small-file threshold,
+    # many chunks / many files over many workers, large chunk sizes
+    sp = vlib.run_vh_sharded(['xfer-special', '-seed', str(seed), '-groups', 'onestream,manychunks,manyfiles,geometry,symlink'], 8, timeout=1800)
+    # prior histories an interrupted transfer leaves behind (plain, highest chunk torn, complete file with a torn
+    # last chunk) resumed with duplicates (verification tail, repair) over data streams that lag behind the
+    # control stream: the late chunks must not make the transfer fail
+    hist = vlib.run_vh_sharded(['resume-tamper', '-seed', str(seed), '-only', 'untouched,torn-chunk,complete-torn-last', '-require-complete'], 6, timeout=1800)
+    for viol in sp['violations'] + hist['violations']:
+        if viol['sig'].get('property') == 'C03':
+            v.violation(viol['sig'], viol.get('replay'))
     v.coverage = dict(states=mc['states'], transitions=mc['transitions'], traces_validated_against_impl=res['behaviours'],
                       samples=res['samples'][:6], hook_traces_validated_by_tlc=res['trace_stats'], transfers_not_traced=res['extra'].get('transfers_not_traced'),
                       tlc=dict(runs=mc['runs'], checks="deadlock freedom + <>(both ok) under WF(Next), QUIC and mock visibility", negative_controls_refuted=neg),
                       grid=dict(rows_in_grid=res['grid_rows'], runs=res['behaviours'], outcomes=res['extra'].get('outcomes'),
-                                skipped_over_budget=res['extra'].get('skipped_over_budget')))
+                                skipped_over_budget=res['extra'].get('skipped_over_budget')),
+                      special_inputs=dict(runs=sp['behaviours'], outcomes=sp['extra'].get('outcomes')),
+                      resumed_histories=dict(runs=hist['behaviours'], by_kind=hist['extra'].get('by_kind'), outcomes=hist['extra'].get('outcomes')))
     v.assumptions = ["watchdog: 5 s without completion on the simulated transports, 10 s on loopback QUIC; a hang is re-run once and only a repeat counts",
                      "legal names covered: spaces, unicode, leading dots, '..' inside a segment, ';' '&'; not covered: non-UTF-8 names (altered by the JSON manifest), names longer than 255 bytes"]
     return v.finish()
